@@ -61,35 +61,35 @@ class Prop:
                  "T1 extraction of every guard/mask/constant; differential run vs. a real EventLoop under both back-ends with "
                  "poll/epoll_wait/epoll_ctl interposed; independent trace oracle; epoll-vs-poll comparison")
     level_text = ("Kernel-checked theorems (lean/MuduoVerif/Props/C09.lean) about a model of Channel + PollPoller + EPollPoller + "
-                  "EventLoop's dispatch, quantified over every history of enable/disable read/write, disableAll, remove, "
+                  "EventLoop's dispatch, at full strength for EVERY history of enable/disable read/write, disableAll, remove, "
                   "re-register, recreate on any number of channels, with operations between polls and scripted inside callbacks, and "
                   "any readiness input; the documented preconditions are the model's guards (a request outside them is rejected and "
-                  "changes nothing). For ALL histories, both back-ends: no epoll_ctl fails and nothing is logged by SYSERR/SYSFATAL "
-                  "(no_ctl_failure); EPollPoller's new/added/deleted slot machine agrees with channels_ and the kernel's interest "
-                  "list (slot_inv_epoll); every callback ran with the matching revents bits and with the interest the channel had at "
-                  "the moment of the call, replayed from the operations recorded before it - earlier callbacks of the same batch "
-                  "included - (dispatch_sound), only on a channel registered at that moment and never between remove(c) and a "
-                  "re-registration (called_is_registered, removed_never_called); every poll is given the constant positive time-out "
-                  "and an iteration with nothing reported runs no callback and changes only the counter (idle_blocks); an epoll loop "
-                  "fails no assertion if the kernel behaves (no_abort_epoll) and calls only reported channels with the revents "
-                  "reported for them in that iteration (dispatch_reported_epoll). For histories WITHOUT finding F21 (`_partial`; "
-                  "the full statements are refuted by `decide` witnesses): what either back-end asks the kernel to watch is exactly "
-                  "{fd -> interest | registered, interest != 0} (refine_poll_partial, refine_epoll_partial; refine_full is false); "
-                  "PollPoller's slot invariant for every removal order and re-registration (index_inv_partial); no failed assertion "
-                  "on a poll loop (no_abort_poll_partial); no watched descriptor has an empty mask (idle_blocks_partial); the same "
-                  "history with the same kernel reports gives, under poll and under epoll, the same ordered trace of executed/"
-                  "rejected operations and callbacks (channel, kind, revents, interest) and the same watched map whenever both "
-                  "pollers return the same active list (same_callbacks_partial, same_watch_partial), and - when operations happen "
-                  "only between polls - the same multiset of callbacks for ANY report order (same_callbacks_unordered_partial, "
-                  "same_watch_unordered_partial); order_matters exhibits that a callback operating on another channel makes the "
-                  "callbacks depend on the report order. Guards, masks and constants are re-extracted from /repo on every run; the "
-                  "hand-written rest of the model is tied to the real classes by a per-step differential run under both back-ends")
+                  "changes nothing). What either back-end asks the kernel to watch is exactly {fd -> interest | registered, "
+                  "interest != 0} (refine_poll, refine_epoll, refine_full_holds; no watched descriptor has an empty mask: "
+                  "idle_blocks_watch); PollPoller's slot invariant for every removal order and re-registration (index_inv) and "
+                  "EPollPoller's new/added/deleted slot machine against channels_ and the kernel's interest list (slot_inv_epoll); "
+                  "no epoll_ctl fails and nothing is logged by SYSERR/SYSFATAL (no_ctl_failure); no assertion fails on a poll loop "
+                  "whatever the kernel reports (no_abort_poll) and on an epoll loop if the kernel behaves (no_abort_epoll); every "
+                  "callback ran with the matching revents bits and with the interest the channel had at the moment of the call, "
+                  "replayed from the operations recorded before it - earlier callbacks of the same batch included - "
+                  "(dispatch_sound), only on a channel registered at that moment and never between remove(c) and a re-registration "
+                  "(called_is_registered, removed_never_called), only on channels of the active list and with the revents the "
+                  "kernel reported for them in that iteration (dispatch_reported_poll, dispatch_reported_epoll); every poll is "
+                  "given the constant positive time-out and an iteration with nothing reported runs no callback and changes only "
+                  "the counter (idle_blocks). The same history with the same kernel reports gives, under poll and under epoll, the "
+                  "same ordered trace of executed/rejected operations and callbacks (channel, kind, revents, interest) and the same "
+                  "watched map whenever both pollers return the same active list (same_callbacks, same_watch), and - when "
+                  "operations happen only between polls - the same multiset of callbacks for ANY report order "
+                  "(same_callbacks_unordered, same_watch_unordered); order_matters exhibits that a callback operating on another "
+                  "channel makes the callbacks depend on the report order. Guards, masks and constants - including the two sites of "
+                  "the F21 repair - are re-extracted from /repo on every run; the hand-written rest of the model is tied to the real "
+                  "classes by a per-step differential run under both back-ends")
     level_note = ("Trusted: Lean kernel, vlib/extract.py, the hand-written parts of Model/Poller.lean as far as the differential "
                   "run exercises them, Linux epoll/poll semantics (readiness is input), std::map/std::vector. Not proved, only "
                   "checked on the implementation by the oracle: every ready subscribed channel is served within the event-array "
                   "doubling bound (`not-served`), completeness of the dispatch for untouched channels (`missed-callback`), no "
-                  "self-wake-up (`self-wake`). The hypothesis `blind = false` of the `_partial` theorems is a ghost flag of the "
-                  "model; blind_visible shows it is set only by an operation visible in the trace (F21).")
+                  "self-wake-up (`self-wake`). same_callbacks/same_watch carry environment hypotheses (see assumptions), no "
+                  "hypothesis about the code.")
     rule = ("histories over 1..300 real channels (pipes read/write end, socketpairs): enable/disable read/write, disableAll, "
             "remove, re-register the same object, recreate the object, operations scripted inside callbacks of the same or "
             "another channel, peer write/consume/fill/drain/half-close/close/reset, single-stepped iterations; exhaustive "
@@ -121,22 +121,7 @@ class Prop:
         "descriptors are abstract in the model (channel c owns descriptor c); the code uses them only as map keys and "
         "through the -fd-1 encoding",
     ]
-    _F21 = "(run ..).blind = false: no channel's first update left it without interest"
-    partial_theorems = [
-        {"theorem": "refine_poll_partial", "hypothesis": _F21, "finding": "F21 blind-watch (witness refine_full_false)"},
-        {"theorem": "refine_epoll_partial", "hypothesis": _F21, "finding": "F21 blind-watch (witness refine_epoll_false)"},
-        {"theorem": "index_inv_partial", "hypothesis": _F21, "finding": "F21 blind-watch (witness index_inv_false)"},
-        {"theorem": "no_abort_poll_partial", "hypothesis": _F21, "finding": "F21 blind-abort (witness no_abort_poll_false)"},
-        {"theorem": "idle_blocks_partial", "hypothesis": _F21, "finding": "F21 blind-spin (witness idle_blocks_false)"},
-        {"theorem": "same_callbacks_partial", "hypothesis": _F21 + "; simEnvOk along the history",
-         "finding": "F21 blind-abort (witness same_callbacks_false); the order hypothesis is necessary (order_matters)"},
-        {"theorem": "same_watch_partial", "hypothesis": _F21 + "; simEnvOk along the history", "finding": "F21 blind-abort"},
-        {"theorem": "same_callbacks_unordered_partial", "hypothesis": _F21 + "; permEnvOk along the history (no scripted "
-         "operations inside callbacks)", "finding": "F21 blind-abort; order_matters for histories with cross-channel hooks"},
-        {"theorem": "same_watch_unordered_partial", "hypothesis": _F21 + "; permEnvOk along the history", "finding": "F21 blind-abort"},
-        {"theorem": "dispatch_reported_poll_partial", "hypothesis": _F21,
-         "finding": "none known (the proof uses PollPoller's slot invariant, which F21 breaks)"},
-    ]
+    partial_theorems = []   # F21 is repaired (known_findings/C09.json `fixed`): every theorem is stated for all histories
 
     def signature(self, case, kind, desc):
         return kind
@@ -357,8 +342,6 @@ class Prop:
             i = rng.randrange(nchan)
             if r < 0.34:
                 what = rng.choice(["enableR", "enableR", "enableW", "disableR", "disableW", "disableAll", "disableAll"])
-                if not reg[i] and UPDATES[what](ev[i]) == 0 and rng.random() < 0.97:
-                    what = rng.choice(["enableR", "enableW"])   # F21 is a known finding: rarely
                 lines.append("op %d %s" % (i, what))
                 ev[i] = UPDATES[what](ev[i])
                 reg[i] = True
@@ -525,8 +508,6 @@ class Prop:
                     r = True
                 elif what == "remove" and r and e == 0:
                     r = False
-            if blind:
-                continue   # F21 (registration without interest) has its own corpus witness
             a, b = k, k + 1
             k += 2
             cur += ["chan %d sock" % a, "chan %d pipe" % b, "peer %d close" % a, "op %d enableR" % b]
@@ -766,7 +747,7 @@ class Prop:
         return len(ctx.mismatches) >= (6 if ctx.search_mode else 2)
 
     flavour = "dbg"
-    KNOWN_KINDS = ("blind-watch", "blind-spin", "blind-abort")
+    KNOWN_KINDS = ()   # F21 (blind-watch/-spin/-abort) is repaired: these oracle kinds are ordinary violations again
 
     @staticmethod
     def read_case(path):
